@@ -864,6 +864,12 @@ func (u *Unit) exec(p *Path, in ssa.Instruction) {
 func (u *Unit) execAlloc(p *Path, x *ssa.Alloc) {
 	enc := u.v.enc
 	el := x.Type().Underlying().(*types.Pointer).Elem()
+	if n, ok := el.(*types.Named); ok && n.Obj().Pkg() != nil && n.Obj().Pkg().Path() == "strings" && n.Obj().Name() == "Builder" {
+		// a strings.Builder variable is represented by the text it has accumulated (methods: builderCall)
+		p.locals[x] = StrLit("")
+		p.addrs[x] = &Addr{Kind: "local", Local: x, T: types.Typ[types.String]}
+		return
+	}
 	if !x.Heap {
 		if _, isArr := el.Underlying().(*types.Array); !isArr {
 			p.locals[x] = enc.Zero(enc.SortOf(el))
@@ -902,7 +908,13 @@ func (u *Unit) binop(x *ssa.BinOp, a, b *Term) *Term {
 	if a.Sort != b.Sort {
 		u.fail("binary operator %s on sorts %s and %s", x.Op, a.Sort, b.Sort)
 	}
+	if a.Sort != SInt && a.Sort != SStr && a.Sort != SBool && x.Op != token.EQL && x.Op != token.NEQ || strings.HasPrefix(a.Sort, "F") && len(a.Sort) == 3 || strings.HasPrefix(a.Sort, "C") && (a.Sort == "C64" || a.Sort == "C128") {
+		// floating-point and complex arithmetic is not interpreted: a function of the operands, nothing more
+		return u.opaqueOp(x, a, b)
+	}
 	switch x.Op {
+	case token.QUO, token.REM, token.AND, token.OR, token.XOR, token.SHL, token.SHR, token.AND_NOT:
+		return u.opaqueOp(x, a, b)
 	case token.ADD:
 		if a.Sort == SStr {
 			return Concat(a, b)
@@ -1276,3 +1288,14 @@ func (u *Unit) stringIndex(p *Path, x ssa.Value, sv, iv ssa.Value) {
 
 // fieldNames: source-level names that denote struct fields (never candidates when a renamed local is resolved).
 var fieldNames = map[string]bool{}
+
+// opaqueOp: an operator the logic does not interpret is an uninterpreted function of its operands.
+func (u *Unit) opaqueOp(x *ssa.BinOp, a, b *Term) *Term {
+	ret := u.v.enc.SortOf(x.Type())
+	name := fmt.Sprintf("op_%s_%s", map[token.Token]string{token.ADD: "add", token.SUB: "sub", token.MUL: "mul", token.QUO: "quo", token.REM: "rem",
+		token.AND: "and", token.OR: "or", token.XOR: "xor", token.SHL: "shl", token.SHR: "shr", token.AND_NOT: "andnot", token.EQL: "eq", token.NEQ: "neq",
+		token.LSS: "lt", token.LEQ: "le", token.GTR: "gt", token.GEQ: "ge"}[x.Op], a.Sort)
+	u.v.enc.declFun(name, []string{a.Sort, b.Sort}, ret)
+	u.noteUnmodelled("operator " + x.Op.String() + " on " + x.X.Type().String() + " is not interpreted")
+	return App(name, ret, a, b)
+}
